@@ -688,12 +688,20 @@ const (
 	probePass = "p1"
 )
 
+// given: the option is present with a true value ("flag0"/"env0" = present with the value false)
+func given(src string) bool { return src == "flag" || src == "env" }
+
 func srcArgs(src string, flag []string, env []string) (a []string, e []string) {
 	switch src {
 	case "flag":
 		return flag, nil
 	case "env":
 		return nil, env
+	case "flag0":
+		// the boolean option given with an explicit false value
+		return []string{flag[0] + "=false"}, nil
+	case "env0":
+		return nil, []string{strings.SplitN(env[0], "=", 2)[0] + "=false"}
 	}
 	return nil, nil
 }
@@ -851,7 +859,7 @@ func (r *runner) c31Gateway(c Case, l *Line31, xargs, env []string) {
 		return
 	}
 	l.Obs = "listen"
-	if c.Cred == "absent" {
+	if !given(c.Cred) {
 		return
 	}
 	// Does it take credentials in clear?  CONNECT + AUTH(PLAIN) as plain datagrams; a gateway that
@@ -865,13 +873,13 @@ func (r *runner) c31Gateway(c Case, l *Line31, xargs, env []string) {
 	u.Write(snref.Encode(snref.Pkt{Type: snref.CONNECT, Clean: true, Duration: 600, ClientID: "c31"}))
 	u.Write(snref.Encode(snref.Pkt{Type: snref.AUTH, Method: "PLAIN", Data: []byte("\x00" + probeUser + "\x00" + probePass)}))
 	bound := r.wait
-	if c.Dtls != "absent" {
+	if given(c.Dtls) {
 		bound = r.absent // a DTLS listener is not expected to react at all
 	}
 	ln.(*net.TCPListener).SetDeadline(time.Now().Add(bound))
 	tc, err := ln.Accept()
 	if err != nil {
-		if c.Dtls != "absent" {
+		if given(c.Dtls) {
 			l.PlainAuth = "none"
 			return
 		}
